@@ -203,10 +203,28 @@ def run(ctx):
         placement = ["form", "query", "both"][i % 3] if ctx.tier == "quick" else None
         for pl in ([placement] if placement else ["form", "query", "both"]):
             check_cell(ctx, m, grant, gen, sup, cs, req, orig, pl)
+    run_lookalikes(ctx, m)
     run_histories(ctx, m)
     run_overlapping(ctx, m)
     run_django_config(ctx, m)
     run_flask_config(ctx, m)
+
+
+def run_lookalikes(ctx, m):
+    """Scope names that contain one another (user / user:email, rep / repo): the cells above use one-letter names, for which a
+    substring test and a membership test cannot be told apart.  Refresh requests against an original scope, and fresh requests
+    against the client's allowed scope, with names that are substrings of a granted name but not granted themselves."""
+    names = ["user", "user:email", "repo", "rep", "email"]
+    wide = " ".join(names)
+    reqs = ["user", "email", "rep", "repo", "user:email", "r", "user:email repo", "repo user:email", "user:emai", "user rep"]
+    for sup in (None, names):
+        for orig in ("user:email repo", "repo", "user:email"):
+            for req in reqs:
+                check_cell(ctx, m, "refresh", "bearer", sup, wide, req, orig, "form")
+        for grant in ("password", "client_credentials"):
+            for cs in ("user:email repo", "repo"):
+                for req in reqs:
+                    check_cell(ctx, m, grant, "bearer", sup, cs, req, None, "form")
 
 
 TRANSPORT = "neutral"
